@@ -211,9 +211,9 @@ PROPS['C08'] = dict(
 PROPS['C09'] = dict(
     category='other',
     technique='Kani contracts on the real Decoder::new and read_line over a fault-injecting BufRead (bounded content, fault at any of the first calls)',
-    level_text='driver (Verus unit drv, files of every length): a read error met by parse_version / parse_first_section / parse_section is never turned into a result -- the only Ok outcomes are those of the reference driver over the lines actually delivered, so swallowing an Err as end-of-input fails the proof. writer side (syntactic obligation, every call in src/encode.rs): all output goes through write! / writeln! / write_all / flush -- never a bare Write::write -- and every Result is propagated with `?` or returned, so a failing or exhausted writer makes encode return an error; in the units kv / rec / c04 (C04) the same propagation is part of the proofs (an emission whose Result is dropped leaves the protocol state unknown). bounded stand-in, reader side: a non-transient error injected at any of the first fill_buf calls is returned by Decoder::new / read_line with its kind (never Ok, never a panic); Interrupted during BOM sniffing is retried',
+    level_text='driver (Verus unit drv, files of every length): a read error met by parse_version / parse_first_section / parse_section is never turned into a result -- the only Ok outcomes are those of the reference driver over the lines actually delivered, so swallowing an Err as end-of-input fails the proof. writer side: an Ok result of Beatmap::encode is the result of its final writer.flush() (unit kv), so buffered data and a failing flush cannot go unnoticed; (syntactic obligation, every call in src/encode.rs): all output goes through write! / writeln! / write_all / flush -- never a bare Write::write -- and every Result is propagated with `?` or returned, so a failing or exhausted writer makes encode return an error; in the units kv / rec / c04 (C04) the same propagation is part of the proofs (an emission whose Result is dropped leaves the protocol state unknown). bounded stand-in, reader side: a non-transient error injected at any of the first fill_buf calls is returned by Decoder::new / read_line with its kind (never Ok, never a panic); Interrupted during BOM sniffing is retried',
     level_note='writer faults are not executed (encode needs core::fmt); driver-level propagation (`?` in parse_version / parse_first_section / parse_section) is syntactic and only exercised in the thorough-tier driver harnesses',
-    verus=[dict(unit='drv', tier='quick')], kani=['decoder.kc'],
+    verus=[dict(unit='drv', tier='quick'), dict(unit='kv', tier='quick')], kani=['decoder.kc'],
     only_prefix=['c09_', 'c10_read_line_utf16le'],
     kani_functions=['src/reader/decoder.rs :: impl Decoder :: fn new', 'src/reader/decoder.rs :: impl Decoder :: fn read_bom', 'src/reader/decoder.rs :: impl Decoder :: fn read_line'],
     explanation='see level_text', trusted_base=_READER_TRUST + ['std: write! / writeln! / write_all complete the write or return an error (WriteZero for a zero-length write, Interrupted retried)'],
